@@ -35,8 +35,9 @@ Setup ==
   \o (IF Mode = "ns" THEN << [op |-> "Bundle", h |-> "d1", id |-> NamePL("ex", <<"b1">>), out |-> "b1"] >> ELSE <<>>)
   \* mode "addb": a bundle built on its own, named in a namespace the document does not declare,
   \* attached with add_bundle(); then the menu of mode "ns"
-  \o (IF Mode = "addb"
-      THEN << [op |-> "NewBundle", id |-> [p |-> "q", ns |-> C, l |-> <<"b1">>], out |-> "b1"],
+  \* (mode "addbd": in a third namespace that no action of the menu mentions)
+  \o (IF Mode \in {"addb", "addbd"}
+      THEN << [op |-> "NewBundle", id |-> [p |-> "q", ns |-> IF Mode = "addb" THEN C ELSE <<"d">>, l |-> <<"b1">>], out |-> "b1"],
               [op |-> "AddBundle", h |-> "d1", arg |-> "b1", id |-> <<>>, out |-> "bx"] >>
       ELSE <<>>)
   \* mode "conflict": a document that cannot be unified (one activity stated with two start times), with a
